@@ -119,6 +119,8 @@ def pLoad (fee : FeeModel α) : P (Broker α) := do
 structure St (α : Type) where
   b : Option (Broker α) := none
   prev : List (String × Nat) := []
+  /-- a standalone `Position` object (driven directly, without a handler) -/
+  pos : Option (Position α) := none
 
 /-- the fills an `update` will attempt, in execution order (informational; the state is authoritative) -/
 def plannedFills (b : Broker α) (t : Int) (q : Quotes α) : List String :=
@@ -137,6 +139,24 @@ def reply (s : St α) (b' : Broker α) (out : Option Err) (extra : List (String 
 def handle (s : St α) (line : String) : St α × String :=
   let bad := (s, jobj [("out", jstr "bad-op")])
   match tokens line with
+  | ["popen", asset, qty, t, price, comm] =>
+    match int? qty, int? t, (num? price : Option α), (num? comm : Option α) with
+    | some qty, some t, some price, some comm =>
+      let p := Position.openFrom { asset := asset, qty := qty, time := t, price := price, commission := comm }
+      ({ s with pos := some p }, jobj [("out", jstr "ok"), ("pos", posJson p)])
+    | _, _, _, _ => bad
+  | ["ptxn", asset, qty, t, price, comm] =>
+    match s.pos, int? qty, int? t, (num? price : Option α), (num? comm : Option α) with
+    | some p, some qty, some t, some price, some comm =>
+      let (p', e) := p.transact { asset := asset, qty := qty, time := t, price := price, commission := comm }
+      ({ s with pos := some p' }, jobj [("out", jstr (outName e)), ("pos", posJson p')])
+    | _, _, _, _, _ => bad
+  | ["pmark", price, t] =>
+    match s.pos, (num? price : Option α), int? t with
+    | some p, some price, some t =>
+      let (p', e) := p.updatePrice price t
+      ({ s with pos := some p' }, jobj [("out", jstr (outName e)), ("pos", posJson p')])
+    | _, _, _ => bad
   | "new" :: t :: funds :: feeToks =>
     match int? t, (num? funds : Option α) with
     | some t, some funds =>
